@@ -866,9 +866,10 @@ def timed_rules(ctx: Ctx) -> None:
         if a[H] or a[K]:
             return (f"yield TimedNote(time={TIME}, note={nv})",)
         if a[F] and a[T]:
-            return (f"yield TimedNote(time={TIME}, note={FAKE})",)
+            return _OneOf((f"yield TimedNote(time={TIME}, note={FAKE})",), (f"yield TimedNote(time={TIME}, note={nv}._replace(note_type=NoteType.FAKE))",))
         return ()
 
+    from ..decide import OneOf as _OneOf
     tjudge(ctx, "R-ORDER", f, "a note is passed on unchanged (same object, with the time of its beat) exactly when hittable or KEEP_NOTE; an unhittable TAP under TAP_TO_FAKE becomes a fake "
            "that differs in nothing but the type; every other unhittable note is dropped", decs, [H, K, F, T], spec,
            equiv={f"{un} == UnhittableNotes.DROP_NOTE": (F, False)} if False else None)
